@@ -195,6 +195,9 @@ CONTRACTS.append(Contract(
 from contracts import bigcrypt as _big  # noqa: E402
 
 CONTRACTS += [_big.contract("C01"), _big.bsdi_key_contract("C01")]
+from contracts import misc_quick as _mq  # noqa: E402
+
+CONTRACTS += _mq.htdigest_hash  # text and encoded bytes of a password denote the same password under the context encoding
 BOUNDED = [Bounded("c01", "harness/c01.py", descr="every registered hasher x password/settings grid x near misses", timeout=900)]
 
 MUTANTS = [
